@@ -55,14 +55,14 @@ func newKey(t *testing.T, rng *rand.Rand) *key {
 // ---------------------------------------------------------------------------------
 
 type signed struct {
-	k        *key
-	id       []byte
-	idKind   string
-	wrapped  boson.Chunk
-	addr     []byte
-	data     []byte
-	plClass  string
-	witness  map[string]interface{}
+	k       *key
+	id      []byte
+	idKind  string
+	wrapped boson.Chunk
+	addr    []byte
+	data    []byte
+	plClass string
+	witness map[string]interface{}
 }
 
 func payloadClass(n int) string {
@@ -294,7 +294,7 @@ func smallShard(t *testing.T, which, of int) {
 		"the signed digest is the EIP-191 'Ethereum Signed Message' hash of keccak256(id || wrapped address), as crypto.Signer.Sign documents",
 		"v and v+4 (btcec compressed-key flag) encode the same signature value; counted as sig_encoding_aliases, not reported",
 		"trailing zero bytes appended to the wrapped data leave the zero-padded BMT content, hence the wrapped address, unchanged by definition; counted as zero_padding_aliases, not reported")
-	nkeys := run.N(8, 40)
+	nkeys := run.N(12, 90)
 	for ki := which; ki < nkeys; ki += of {
 		c := run.Begin(fmt.Sprintf("key/%d", ki), map[string]interface{}{"key_index": ki})
 		if c == nil {
@@ -306,10 +306,7 @@ func smallShard(t *testing.T, which, of int) {
 		idl, idk := ids(rng)
 		sizes := []int{0, 1, 32, 2 + rng.Intn(4094), 4096}
 		for ii, id := range idl {
-			for si, n := range sizes {
-				if !run.Thorough() && (ki+ii+si)%2 == 1 && n != 1 { // quick: half of the (id, size) grid per key, rotating
-					continue
-				}
+			for _, n := range sizes {
 				payload := make([]byte, n)
 				rng.Read(payload)
 				s, ok := signChunk(c, run, k, id, idk[ii], payload)
@@ -336,7 +333,7 @@ func TestFullSizeChunks(t *testing.T) {
 	defer run.Done()
 	run.Rule("wrapped data of exactly 256 KiB and CS-1, CS/2+1 bytes: signed by the real code, then sampled alterations (4 id bytes, 3 bytes each of r and s, v with 6 masks incl. the alias, 8 span bytes, 6 payload bytes incl. the last, 4 address bytes); distinct = (payload class, id kind, altered byte)")
 	sizes := []int{cs, cs - 1, cs/2 + 1}
-	for i := 0; i < run.N(3, 12); i++ {
+	for i := 0; i < run.N(4, 24); i++ {
 		n := sizes[i%len(sizes)]
 		c := run.Begin(fmt.Sprintf("full/%d/%d", i, n), map[string]interface{}{"data_len": n})
 		if c == nil {
